@@ -193,6 +193,8 @@ theorem act_leaf_goal (cx : PCtx) (hnl : cx.nl = 0) (e : Expr) (ha : e.leafActio
       refine wp_of_rt (parseStr_rt cx f) h2 ?_
       intro s3 h3
       apply wp_curLine_up cx hnl h3
+      have hfs : strOK f = true := by simpa [leafPOK] using hp
+      apply wp_expandMac_up false f hfs h3
       simp only [wp_pure]
       have := fin s3 h3
       simp only [wp_bind] at this
@@ -354,6 +356,9 @@ theorem act_leaf_goal (cx : PCtx) (hnl : cx.nl = 0) (e : Expr) (ha : e.leafActio
       refine wp_of_rt (parseStr_rt cx v) h3 ?_
       intro s4 h4
       apply wp_curLine_up cx hnl h4
+      have hkv : strOK k = true ∧ strOK v = true := by simpa [leafPOK] using hp
+      apply wp_expandMac_up false k hkv.1 h4
+      apply wp_expandMac_up true v hkv.2 h4
       simp only [wp_pure]
       have := fin s4 h4
       simp only [wp_bind] at this
